@@ -8,6 +8,7 @@ use crate::laysut::*;
 use crate::mapsut::*;
 use crate::report::{BfsConfig, Config, Tier};
 use crate::tablesut::TProbe;
+use crate::inv;
 
 fn lay<L: Lay>(coll: Coll, plan: Plan, universe: u8, tier: Tier) -> Box<dyn Config> {
     let h = LayHarness::<L>::new(coll, plan, universe, true);
@@ -31,6 +32,10 @@ pub fn configs_c02(tier: Tier) -> Vec<Box<dyn Config>> {
     // universes large enough to pass a group (and the small-table minima) for one-byte elements
     let ubig = if tiny { 3 } else if sse2 { if q { 15 } else { 17 } } else { if q { 8 } else { 10 } };
     all_colls::<Z0>(&mut v, Plan::Zero, 1, tier);
+    all_colls::<Z16>(&mut v, Plan::Zero, 1, tier);
+    all_colls::<S3>(&mut v, Plan::Seq, u, tier);
+    v.push(lay::<S6>(Coll::Map, Plan::Zero, u, tier));
+    v.push(Box::new(ZstTables { tier }));
     all_colls::<S1>(&mut v, Plan::Zero, u, tier);
     v.push(lay::<S1>(Coll::Set, Plan::Seq, ubig, tier));
     all_colls::<S2>(&mut v, Plan::Max, u, tier);
@@ -88,4 +93,140 @@ pub fn configs_c03(tier: Tier) -> Vec<Box<dyn Config>> {
         v.push(Box::new(BfsConfig::new(l, h, Limits { max_wall_s: 60.0, ..Default::default() })));
     }
     v
+}
+
+// ---------------------------------------------------------------------------
+// Zero-sized elements in a HashTable: many entries (distinct caller-supplied
+// hashes), buckets encoded as index pseudo-pointers. Exhaustive enumeration of
+// (number of entries, removal predicate by visit order).
+// ---------------------------------------------------------------------------
+
+use crate::env::{self, CheckAlloc};
+use crate::report::{ConfigReport, Viol};
+use serde_json::json;
+
+pub struct ZstTables {
+    pub tier: Tier,
+}
+
+fn zst_case(n: usize, mask: u32, mode: u8) -> Result<(), String> {
+    type T = hashbrown::HashTable<(), CheckAlloc>;
+    env::reset();
+    // a zero-sized element carries no information, so the re-hashing closure can only be a
+    // constant: all entries share one hash (they spread along its probe sequence)
+    const H0: u64 = 5 | (0x15 << 57);
+    let hashes: Vec<u64> = vec![H0; n];
+    let mut t = T::default();
+    for &h in &hashes {
+        t.insert_unique(h, (), |_| H0);
+    }
+    let what = || format!("HashTable<()> with {n} entries, removal pattern {mask:#b}, mode {mode}");
+    let chk = |t: &T, want: usize| -> Result<(), String> {
+        let d = t.verif_dump();
+        inv::check_structure_public(&d).map_err(|m| format!("{}: {m}", what()))?;
+        if t.len() != want || t.iter().count() != want {
+            return Err(format!("{}: len() = {}, iter() yields {}, expected {want}", what(), t.len(), t.iter().count()));
+        }
+        Ok(())
+    };
+    chk(&t, n)?;
+    let mut visit = 0u32;
+    let mut removed = 0usize;
+    match mode {
+        0 => {
+            t.retain(|_| {
+                let keep = mask >> (visit % 32) & 1 == 0;
+                visit += 1;
+                if !keep {
+                    removed += 1;
+                }
+                keep
+            });
+        }
+        1 => {
+            let got = t
+                .extract_if(|_| {
+                    let r = mask >> (visit % 32) & 1 == 1;
+                    visit += 1;
+                    r
+                })
+                .count();
+            removed = got;
+        }
+        _ => {
+            // remove through find_entry by hash, for the hashes selected by the mask
+            for (i, &h) in hashes.iter().enumerate() {
+                if mask >> (i % 32) & 1 == 1 {
+                    match t.find_entry(h, |_| true) {
+                        Ok(o) => {
+                            o.remove();
+                            removed += 1;
+                        }
+                        Err(_) => return Err(format!("{}: entry inserted with hash #{i} not found", what())),
+                    }
+                }
+            }
+        }
+    }
+    chk(&t, n - removed)?;
+    if mode == 2 {
+        // the hashes that were not removed must still be found, the removed ones... every element is
+        // `()`, so a lookup by a removed hash may only succeed through another entry with equal tag
+        if n - removed > 0 && t.find(H0, |_| true).is_none() {
+            return Err(format!("{}: {} entries remain but a lookup with their hash finds none", what(), n - removed));
+        }
+        if t.iter_hash(H0).count() != n - removed {
+            return Err(format!("{}: iter_hash yields {} of the {} remaining entries", what(), t.iter_hash(H0).count(), n - removed));
+        }
+    }
+    // still usable
+    t.insert_unique(H0, (), |_| H0);
+    chk(&t, n - removed + 1)?;
+    let k = t.drain().count();
+    if k != n - removed + 1 {
+        return Err(format!("{}: drain yields {k}", what()));
+    }
+    drop(t);
+    crate::mapsut::end_of_run_checks(&Baseline { live_elems: 0, live_blocks: 0, live_bytes: 0, block_idx: 0, reg_idx: 0 })
+}
+
+impl Config for ZstTables {
+    fn label(&self) -> String {
+        "HashTable<()>-many-entries".into()
+    }
+    fn run(&self) -> ConfigReport {
+        crate::crumbs::set_config(&self.label());
+        let t0 = std::time::Instant::now();
+        let mut rep = ConfigReport { label: self.label(), mode: "enum".into(), exhaustive: true, ..Default::default() };
+        let maxn = if self.tier == Tier::Quick { 20 } else { 40 };
+        'outer: for n in 0..=maxn {
+            let masks: Vec<u32> = if n <= 8 { (0..(1u32 << n)).collect() } else { vec![0, !0, 0x5555_5555, 0xAAAA_AAAA, 1, 2, 1 << (n - 1).min(31), 0x0f0f_0f0f, !1] };
+            for &m in &masks {
+                for mode in 0..3u8 {
+                    crate::crumbs::set_replay(&json!({"zst": [n, m, mode]}).to_string());
+                    rep.executions += 1;
+                    match env::catch(|| zst_case(n, m, mode)) {
+                        Ok(Ok(())) => {}
+                        Ok(Err(e)) | Err(e) => {
+                            rep.violations.push(Viol { config: self.label(), message: e, replay: json!({"zst": [n, m, mode]}) });
+                            break 'outer;
+                        }
+                    }
+                }
+            }
+        }
+        rep.states = maxn as u64 + 1;
+        rep.detail = json!({"entries_up_to": maxn, "cases": rep.executions, "distinct_nontrivial": rep.executions});
+        rep.samples.push(json!({"zst": [5, 0b10110, 0]}));
+        rep.wall_s = t0.elapsed().as_secs_f64();
+        rep
+    }
+    fn replay(&self, rp: &serde_json::Value) -> Result<(), String> {
+        let a = rp["zst"].as_array().ok_or("MACHINERY: bad replay")?;
+        let (n, m, mode) = (a[0].as_u64().unwrap_or(0) as usize, a[1].as_u64().unwrap_or(0) as u32, a[2].as_u64().unwrap_or(0) as u8);
+        match env::catch(|| zst_case(n, m, mode)) {
+            Ok(r) => r,
+            Err(e) => Err(e),
+        }
+    }
 }
